@@ -1422,6 +1422,28 @@ def local_convergence(seed, n, scale=1.0):
             fails.append({'law': 'Newton decrement %g of the independent model exceeds 10*tol*chi2 = %g' % (dec, 10 * tol * c1), 'seed': seed, 'case': i,
                           'kind': kind, 'nv': nv, 'tol': tol, 'chi2': c1, 'edge': 'graph'})
             continue
+        if len(g._vertices) <= 14 and all(isinstance(e, (EdgeOdometry, EdgeLandmark)) for e in g._edges):
+            # the same decrement with a gradient that owes nothing to the library's Jacobians: b_num = sum J_num^T Omega e with central-difference
+            # Jacobians of calc_error through the boxplus (error of the difference quotient ~1e-9 relative)
+            b_num = np.zeros_like(b)
+            pos_ = {id(v): k for k, v in enumerate(g._vertices)}
+            for e in g._edges:
+                err_ = np.asarray(e.calc_error(), dtype=np.float64).reshape(-1)
+                w_ = np.asarray(e.information, dtype=np.float64) @ err_
+                for Jn, v in zip(oe.num_jacobians(e), e.vertices):
+                    k = pos_[id(v)]
+                    if not v.fixed:
+                        b_num[off[k]:off[k + 1]] += Jn.T @ w_
+            try:
+                dec_num = float(b_num @ np.linalg.solve(H, b_num))
+            except np.linalg.LinAlgError:
+                dec_num = 0.0
+            floor_ = 1e-14 * (float(np.abs(b_num).max()) ** 2 + float(np.abs(H).max()) * 1e-6) / max(float(np.abs(np.diag(H)).min()), 1e-300)
+            if np.isfinite(dec_num) and not dec_num <= 100.0 * tol * (c1 + 1e-9 * isc) + 1e-10 * isc + floor_ + 1e-6 * c1:
+                fails.append({'law': 'at the state optimize() returned, the Newton decrement computed from NUMERICAL Jacobians of the error functions is %g '
+                                     '(chi2 %g, tol %g): the optimizer stopped away from a stationary point of chi2' % (dec_num, c1, tol), 'seed': seed, 'case': i,
+                              'kind': kind, 'nv': nv, 'tol': tol, 'chi2': c1, 'edge': 'graph'})
+                continue
         if noise_free and tol <= 1e-6 and not c1 <= max(1e-6 * c0, 1e-13 * isc):
             fails.append({'law': 'noise-free problem (every measurement consistent with one ground truth): final chi2 %r, initial %r -- the optimizer did not reach '
                                  'the consistent configuration' % (c1, c0), 'seed': seed, 'case': i, 'kind': kind, 'edge': 'graph'})
